@@ -1,6 +1,6 @@
 (* Dispatch.v — single entry point of the extracted model. *)
 From Coq Require Import ZArith List.
-From PV Require Import extract.Cases at4.Flat4 at5.Flat5 extract.Doms spec.FlatSpec extract.RxCases extract.ApiCases extract.ClientCases base.Flt.
+From PV Require Import extract.Cases at4.Flat4 at5.Flat5 extract.Doms spec.FlatSpec extract.RxCases extract.ApiCases extract.ClientCases base.Flt extract.DrainCases.
 Import ListNotations.
 Open Scope Z_scope.
 
@@ -14,6 +14,7 @@ Definition run_case (l : list Z) : list Z :=
   | 6 :: args => run_decode_dgram args
   | 7 :: args => run_search args
   | 8 :: args => run_flt args
+  | 9 :: args => run_drain args
   | 20 :: args => run_enc4 args
   | 21 :: args => run_dec4 args
   | 22 :: args => run_dom4 args
